@@ -118,6 +118,48 @@ theorem noEndSuffix_of_tailSafe (endRe : Re) (w tail : Text) (hnl : noNewline w 
           subst this
           exact hnm hx
 
+/-- the same for the copyright reader (END up to the end of the line) -/
+theorem noEndSuffixC_of_tailSafe (endRe : Re) (w tail : Text) (hnl : noNewline w = true)
+    (hsafe : tailSafe endRe w = true) : noEndSuffixBeforeC endRe w tail = true := by
+  induction w with
+  | nil => rfl
+  | cons c cs ih =>
+    obtain ⟨_, hcs⟩ := Model.noNewline_cons hnl
+    have hnm := Model.noNewline_mem hnl
+    simp only [tailSafe, Bool.and_eq_true] at hsafe
+    simp only [noEndSuffixBeforeC, Bool.and_eq_true, Bool.not_eq_true']
+    refine ⟨?_, ih hcs hsafe.2⟩
+    unfold endAccepts
+    cases hm : Re.bt endRe (c :: cs ++ tail) (fun r => r.isEmpty || r == ['\n']) with
+    | false => rfl
+    | true =>
+      exfalso
+      obtain ⟨a, r, hs, ha, hk⟩ := Re.bt_sound _ _ _ hm
+      rcases List.append_eq_append_iff.mp hs with ⟨a', h1, _⟩ | ⟨c', h1, h2⟩
+      · rw [h1] at ha
+        exact no_match_of_dead (c :: cs) a' hsafe.1 ha
+      · cases c' with
+        | nil =>
+          simp only [List.append_nil] at h1
+          rw [← h1] at ha
+          exact no_match_of_dead (c :: cs) [] hsafe.1 (by simpa using ha)
+        | cons x xs =>
+          have hx : x ∈ c :: cs := by rw [h1]; simp
+          rw [h2] at hk
+          simp only [List.cons_append, List.isEmpty_cons, Bool.false_or, beq_iff_eq, List.cons.injEq] at hk
+          rw [hk.1] at hx
+          exact hnm hx
+
+theorem noEndSuffixC_nil (endRe : Re) (w : Text) : noEndSuffixBeforeC endRe w [] = noEndSuffix endRe w := by
+  induction w with
+  | nil => rfl
+  | cons c cs ih => simp [noEndSuffixBeforeC, noEndSuffix, ih]
+
+/-- a holder on one line that is tail-safe has no tail END swallows (hypothesis of C20 / C02) -/
+theorem noEndSuffix_of_tailSafe_holder (endRe : Re) (h : Text) (hnl : noNewline h = true)
+    (hsafe : tailSafe endRe h = true) : noEndSuffix endRe h = true := by
+  rw [← noEndSuffixC_nil]; exact noEndSuffixC_of_tailSafe endRe h [] hnl hsafe
+
 /-! ### quiet markers and the tag reader -/
 
 theorem noEarlierTag_append (tag a b rest : Text) :
